@@ -221,8 +221,13 @@ Qed.
 Print Assumptions C08_traverse_combined.
 
 (* ------------------------------------------------------------------------------------------
-   (5) extended keys survive serialise/parse exactly (on the 78 raw bytes that Base58Check
-   carries; the Base58Check layer itself is C09's theorem and is tied here by correspondence).
+   (5) extended keys survive serialise/parse exactly.  First on the 78 raw bytes that
+   Base58Check carries (C08_xprv_roundtrip, C08_xpub_roundtrip and the converses
+   C08_*_parse_serialize); then on the STRINGS that xprv()/xpub() return and parse() reads
+   (C08_*_string_roundtrip, C08_*_string_parse_serialize, C08_xkey_string_rejects further
+   down): Model/HdStr.v composes the 78-byte codec with the Base58Check model of C09
+   (Model/Base58.v) and Proofs/HdStrP.v composes the two round-trip proofs, so the string
+   level is a theorem, no longer only tied by correspondence.
    All 20 SLIP-132 prefixes: the tables are generated from hd.py and equal the registry. *)
 Theorem C08_versions_are_slip132 :
   same_set_b all_mainnet_xpubs (map fst Bip32.slip132_mainnet) = true /\
@@ -426,8 +431,14 @@ Print Assumptions C08_blind_xpub_correct_laws.
 Example C08_secp256k1_shape : ca secp256k1 = 0 /\ cp secp256k1 mod 4 = 3 /\ cp secp256k1 < pow256 32.
 Proof. vm_compute. repeat split; congruence. Qed.
 
-(* the STRING level: xprv()/xpub() followed by parse(), through the Base58Check model and
-   theorem of C09 (hash256 is any function with a 32-byte output) *)
+(* ------------------------------------------------------------------------------------------
+   (5, STRING level) HDPrivateKey.xprv(version) = encode_base58_checksum(raw_serialize(version)),
+   HDPrivateKey.parse(s) = raw_decode_base58(s), the 78-byte length check, raw_parse; the same
+   for HDPublicKey (Model/HdStr.v).  hash256 is ANY function returning 32 bytes (the hypotheses
+   of C09_base58check_roundtrip, nothing more).  No hypothesis on the first version byte is
+   needed: C09's theorem covers payloads with leading zero bytes (the leading-'1' rule), and all
+   20 known prefixes start with 0x02 or 0x04 anyway.  The length check of parse() is part of
+   [parse_priv] / [parse_pub]. *)
 Theorem C08_xprv_string_roundtrip :
   forall C hash256,
   (forall x, length (hash256 x) = 32%nat) -> (forall x, bytes_ok (hash256 x)) ->
@@ -440,10 +451,7 @@ Theorem C08_xprv_string_roundtrip :
   parse_priv_str C hash256 s =
     Ok {| sk := sk k; sk_pt := sk_pt k; sk_cc := sk_cc k; sk_depth := sk_depth k; sk_pfp := sk_pfp k;
           sk_num := sk_num k; sk_net := net_of_xprv ver; sk_ver := ver; sk_pubver := pv |}.
-Proof.
-  intros C h Hl Ho Hn1 Hn2 k ver s A B D E F G.
-  apply (xprv_str_roundtrip C h Hl Ho k ver s Hn1 Hn2); auto. repeat split; assumption.
-Qed.
+Proof. exact xprv_string_roundtrip. Qed.
 Print Assumptions C08_xprv_string_roundtrip.
 
 Theorem C08_xpub_string_roundtrip :
@@ -457,12 +465,81 @@ Theorem C08_xpub_string_roundtrip :
   parse_pub_str C hash256 s =
     Ok {| pk := pk k; pk_cc := pk_cc k; pk_depth := pk_depth k; pk_pfp := pk_pfp k;
           pk_num := pk_num k; pk_net := net_of_xpub ver; pk_ver := ver |}.
-Proof.
-  intros C h Hl Ho SL Ha H4 H256 k ver s A B D E F G.
-  apply (xpub_str_roundtrip C h Hl Ho k ver s (sec_roundtrip_of_laws C SL Ha H4 H256)); auto.
-  repeat split; assumption.
-Qed.
+Proof. exact xpub_string_roundtrip. Qed.
 Print Assumptions C08_xpub_string_roundtrip.
+
+(* version=None (the key's own version bytes), as in k.xprv() / k.xpub() *)
+Theorem C08_xprv_string_roundtrip_default :
+  forall C hash256,
+  (forall x, length (hash256 x) = 32%nat) -> (forall x, bytes_ok (hash256 x)) ->
+  cn C < pow256 32 -> 2 < cn C ->
+  forall (k : hdpriv) s,
+  known_xprv (sk_ver k) = true -> length (sk_pfp k) = 4%nat -> length (sk_cc k) = 32%nat ->
+  bytes_ok (sk_pfp k) -> bytes_ok (sk_cc k) -> pubkey C (sk k) = Ok (sk_pt k) ->
+  xprv_str hash256 k None = Ok s ->
+  exists pv, tbl_get tbl_xpub (net_of_xprv (sk_ver k)) = Ok pv /\
+  parse_priv_str C hash256 s =
+    Ok {| sk := sk k; sk_pt := sk_pt k; sk_cc := sk_cc k; sk_depth := sk_depth k; sk_pfp := sk_pfp k;
+          sk_num := sk_num k; sk_net := net_of_xprv (sk_ver k); sk_ver := sk_ver k; sk_pubver := pv |}.
+Proof. exact xprv_string_roundtrip_default. Qed.
+Print Assumptions C08_xprv_string_roundtrip_default.
+
+Theorem C08_xpub_string_roundtrip_default :
+  forall C hash256,
+  (forall x, length (hash256 x) = 32%nat) -> (forall x, bytes_ok (hash256 x)) ->
+  scalar_laws C -> ca C = 0 -> cp C mod 4 = 3 -> cp C < pow256 32 ->
+  forall (k : hdpub) s,
+  known_xpub (pk_ver k) = true -> length (pk_pfp k) = 4%nat -> length (pk_cc k) = 32%nat ->
+  bytes_ok (pk_pfp k) -> bytes_ok (pk_cc k) -> valid C (pk k) ->
+  xpub_str hash256 k None = Ok s ->
+  parse_pub_str C hash256 s =
+    Ok {| pk := pk k; pk_cc := pk_cc k; pk_depth := pk_depth k; pk_pfp := pk_pfp k;
+          pk_num := pk_num k; pk_net := net_of_xpub (pk_ver k); pk_ver := pk_ver k |}.
+Proof. exact xpub_string_roundtrip_default. Qed.
+Print Assumptions C08_xpub_string_roundtrip_default.
+
+(* the converse on strings: whatever parse() accepts is, character for character, what the
+   parsed key prints (the Base58 conversion of raw_decode_base58 is injective,
+   Proofs/Base58ConvP.v; no leading-'1' or digit ambiguity) *)
+Theorem C08_xprv_string_parse_serialize :
+  forall C hash256, (forall x, length (hash256 x) = 32%nat) ->
+  forall s k, parse_priv_str C hash256 s = Ok k -> xprv_str hash256 k None = Ok s.
+Proof. exact xprv_string_parse_serialize. Qed.
+Print Assumptions C08_xprv_string_parse_serialize.
+
+Theorem C08_xpub_string_parse_serialize :
+  forall C hash256, (forall x, length (hash256 x) = 32%nat) -> cp C mod 2 = 1 ->
+  forall s k, parse_pub_str C hash256 s = Ok k -> xpub_str hash256 k None = Ok s.
+Proof. exact xpub_string_parse_serialize. Qed.
+Print Assumptions C08_xpub_string_parse_serialize.
+
+(* malformed strings.  [raw ++ c] is what the Base58 digits carry (payload, four check bytes):
+   (a) check bytes other than hash256(raw)[:4] are refused; (b) a correctly checksummed payload
+   of any length other than 78 is refused; (c) a payload altered under the ORIGINAL check bytes
+   is refused unless the two payloads collide on hash256(.)[:4]; (d) a character outside the
+   Base58 alphabet is refused. *)
+Theorem C08_xkey_string_rejects :
+  forall C hash256,
+  (forall x, length (hash256 x) = 32%nat) -> (forall x, bytes_ok (hash256 x)) ->
+  (forall raw c s, bytes_ok raw -> bytes_ok c -> length c = 4%nat -> c <> firstn 4 (hash256 raw) ->
+     encode_base58 (raw ++ c) = Ok s ->
+     parse_priv_str C hash256 s = Err /\ parse_pub_str C hash256 s = Err) /\
+  (forall b s, bytes_ok b -> length b <> 78%nat -> encode_base58_checksum hash256 b = Ok s ->
+     parse_priv_str C hash256 s = Err /\ parse_pub_str C hash256 s = Err) /\
+  (forall raw raw' s', bytes_ok raw -> bytes_ok raw' -> raw' <> raw ->
+     encode_base58 (raw' ++ firstn 4 (hash256 raw)) = Ok s' ->
+     (parse_priv_str C hash256 s' = Err /\ parse_pub_str C hash256 s' = Err) \/
+     firstn 4 (hash256 raw') = firstn 4 (hash256 raw)) /\
+  (forall s, ~ Forall (fun ch => In ch b58_alphabet) s ->
+     parse_priv_str C hash256 s = Err /\ parse_pub_str C hash256 s = Err).
+Proof. exact xkey_string_rejects. Qed.
+Print Assumptions C08_xkey_string_rejects.
+
+(* the first version byte of every known prefix is non-zero (so an extended-key string never
+   starts with '1'); not needed by the theorems above, recorded as a checked fact *)
+Example C08_version_first_byte_nonzero :
+  forallb (fun v => negb (nth 0 v 0 =? 0)) all_versions = true.
+Proof. vm_compute. reflexivity. Qed.
 
 
 (* ------------------------------------------------------------------------------------------
@@ -525,6 +602,23 @@ Example C08_toy_blind :
     full = [109;47;49;47;50;47;51].
 Proof.
   do 5 eexists. repeat (split; [vm_compute; reflexivity|]). vm_compute. reflexivity.
+Qed.
+
+(* the string level on the toy curve, with a constant "hash": k.xprv() has 111 characters, starts
+   with "xprv" and parses back to k; one altered character is refused *)
+Definition toy_h256 (b : bytes) : bytes := repeatz 7 32.
+Example C08_toy_string :
+  exists k s, toy_key 5 = Ok k /\
+    (forall x, length (toy_h256 x) = 32%nat) /\ (forall x, bytes_ok (toy_h256 x)) /\
+    known_xprv (sk_ver k) = true /\ pubkey toy (sk k) = Ok (sk_pt k) /\
+    xprv_str toy_h256 k None = Ok s /\ length s = 111%nat /\ firstn 4 s = [120;112;114;118] /\
+    parse_priv_str toy toy_h256 s = Ok k /\
+    parse_priv_str toy toy_h256 (firstn 50 s ++ [49] ++ skipn 51 s) = Err /\
+    parse_priv_str toy toy_h256 (firstn 110 s) = Err.
+Proof.
+  do 2 eexists. split; [vm_compute; reflexivity|].
+  split; [intros x; reflexivity|]. split; [intros x; apply bytes_okb_ok; reflexivity|].
+  repeat (split; [vm_compute; reflexivity|]). vm_compute. reflexivity.
 Qed.
 
 (* The constants written in the model are the constants of the SOURCE: coq/Generated/SrcConsts.v is regenerated
